@@ -152,6 +152,28 @@ structure WinX where
   consumed : Bool := false
 deriving Repr, Inhabited
 
+/-- What an ON_CHANGE handler of a pen does: drop or take a reference to a pen. -/
+inductive PAct where
+  | unref (k : Nat)
+  | ref (k : Nat)
+deriving Repr, Inhabited, DecidableEq
+
+/-- A binding of a pen (all are `TICKIT_PEN_ON_CHANGE`, flags 0). -/
+structure PBind where
+  id : Int
+  acts : List PAct
+deriving Repr, Inhabited
+
+/-- The part of `struct TickitPen` the lifecycle depends on: the foreground colour (index and RGB8, which decide
+    what `tickit_pen_copy` does), the freeze count, the pending-change flag and the bindings. -/
+structure PenX where
+  fg : Option Int := none                      -- valid.fgindex / fgindex
+  rgb : Option (Nat × Nat × Nat) := none       -- valid.fg_rgb8 / fg_rgb8
+  freeze : Nat := 0
+  changed : Bool := false
+  binds : List PBind := []
+deriving Repr, Inhabited
+
 /-- `struct TickitString`. -/
 structure StrObj where
   refcount : Int := 1
@@ -188,6 +210,7 @@ structure St where
   tree : Tree := {}
   wx : Array WinX := #[]
   pens : Array Obj := #[]
+  penx : Array PenX := #[]
   strs : Array StrObj := #[]
   rbs : Array RBObj := #[]
   term : Obj := {}
@@ -408,6 +431,175 @@ def penRef (st : St) (k : Nat) : Out St :=
   | some p =>
     if p.freed then .ub .mem s!"use of freed pen {k}"
     else pure { st with pens := st.pens.setIfInBounds k { p with refcount := p.refcount + 1 } }
+
+/-! ### pens: change events, freeze/thaw (`src/pen.c`) -/
+
+def getPX (st : St) (k : Nat) : PenX := st.penx[k]?.getD {}
+def setPX (st : St) (k : Nat) (x : PenX) : St := { st with penx := st.penx.setIfInBounds k x }
+
+def heldP (st : St) (k : Nat) : Bool :=
+  match st.pens[k]? with
+  | none => false
+  | some p => !p.freed && p.appRefs > 0
+
+/-- One API call of an ON_CHANGE handler (`none`: the harness skips it). -/
+def penAct (st : St) : PAct → Option (Out St)
+  | .unref k => if heldP st k then
+      let p := st.pens[k]?.getD {}
+      some (penUnref { st with pens := st.pens.setIfInBounds k { p with appRefs := p.appRefs - 1 } } k) else none
+  | .ref k => if heldP st k then
+      let p := st.pens[k]?.getD {}
+      some (penRef { st with pens := st.pens.setIfInBounds k { p with appRefs := p.appRefs + 1 } } k) else none
+
+def runPenActs : St → List PAct → Out St
+  | st, [] => pure st
+  | st, a :: rest =>
+    match penAct st a with
+    | none => runPenActs st rest
+    | some r => do
+      let st ← r
+      runPenActs st rest
+
+/-- `run_events(pen, TICKIT_PEN_ON_CHANGE, NULL)`: every binding in list order (the caller holds a reference). -/
+def runPenEvents (st : St) (k : Nat) : Out St := do
+  let _ ← penRef st k >>= fun _ => (pure () : Out Unit)       -- `&pen->bindings`: the pen is read
+  let rec go : St → List PBind → Out St
+    | st, [] => pure st
+    | st, b :: rest => do
+      let st := { st with log := st.log ++ [s!"P{k}c"] }
+      let st ← runPenActs st b.acts
+      go st rest
+  let st ← go st (getPX st k).binds
+  let _ ← penRef st k >>= fun _ => (pure () : Out Unit)       -- `bindings->is_iterating = was_iterating`
+  pure st
+
+/-- `emit_change`: `tickit_pen_ref(pen); run_events(...); tickit_pen_unref(pen);` -/
+def emitChange (st : St) (k : Nat) : Out St := do
+  let st ← penRef st k
+  let st ← runPenEvents st k
+  penUnref st k
+
+/-- `changed`. -/
+def penChanged (st : St) (k : Nat) : Out St := do
+  let _ ← penRef st k >>= fun _ => (pure () : Out Unit)
+  if (getPX st k).freeze = 0 then emitChange st k
+  else pure (setPX st k { getPX st k with changed := true })
+
+/-- `freeze`. -/
+def penFreeze (st : St) (k : Nat) : Out St := do
+  let st ← penRef st k
+  pure (setPX st k { getPX st k with freeze := (getPX st k).freeze + 1 })
+
+/-- `thaw`. -/
+def penThaw (st : St) (k : Nat) : Out St := do
+  let _ ← penRef st k >>= fun _ => (pure () : Out Unit)
+  let st := setPX st k { getPX st k with freeze := (getPX st k).freeze - 1 }
+  let st ← if (getPX st k).freeze = 0 && (getPX st k).changed then
+      runPenEvents (setPX st k { getPX st k with changed := false }) k
+    else pure st
+  penUnref st k
+
+/-- `tickit_pen_set_colour_attr(pen, FG, val)`: emits even while frozen. -/
+def penSetColour (st : St) (k : Nat) (val : Int) : Out St := do
+  let _ ← penRef st k >>= fun _ => (pure () : Out Unit)
+  emitChange (setPX st k { getPX st k with fg := some val, rgb := none }) k
+
+/-- `tickit_pen_set_colour_attr_rgb8(pen, FG, rgb)`. -/
+def penSetRgb (st : St) (k : Nat) (rgb : Nat × Nat × Nat) : Out St := do
+  let _ ← penRef st k >>= fun _ => (pure () : Out Unit)
+  if (getPX st k).fg.isNone then pure st
+  else penChanged (setPX st k { getPX st k with rgb := some rgb }) k
+
+/-- `tickit_pen_copy_attr(dst, src, FG)`. -/
+def penCopyAttr (st : St) (dst src : Nat) : Out St := do
+  let _ ← penRef st src >>= fun _ => (pure () : Out Unit)        -- src is read first
+  let sx := getPX st src
+  let st ← penFreeze st dst
+  let st ← penSetColour st dst (sx.fg.getD (-1))
+  let st ← match (if sx.fg.isSome then sx.rgb else none) with
+    | some rgb => penSetRgb st dst rgb
+    | none => pure st
+  penThaw st dst
+
+/-- `tickit_pen_equiv_attr(a, b, FG)` on the values. -/
+def fgEquiv (a b : PenX) : Bool :=
+  a.fg.getD (-1) == b.fg.getD (-1) &&
+  (let ra := if a.fg.isSome then a.rgb else none
+   let rb := if b.fg.isSome then b.rgb else none
+   ra == rb)
+
+/-- `tickit_pen_copy(dst, src, overwrite)`: only FG is ever set in this engine; the loop goes on reading `src` for
+    the remaining attributes after the handlers of `dst` have run. -/
+def penCopy (st : St) (dst src : Nat) (overwrite : Bool) : Out St := do
+  let st ← penFreeze st dst
+  let _ ← penRef st src >>= fun _ => (pure () : Out Unit)        -- tickit_pen_has_attr(src, FG)
+  let sx := getPX st src
+  let dx := getPX st dst
+  let st ← if sx.fg.isNone then pure st
+    else if dx.fg.isSome && (!overwrite || fgEquiv sx dx) then pure st
+    else penCopyAttr st dst src
+  let _ ← penRef st src >>= fun _ => (pure () : Out Unit)        -- tickit_pen_has_attr(src, BG), …
+  penThaw st dst
+
+/-- `colournames[]`. -/
+def colourNames : List (String × Int) :=
+  [("black", 0), ("red", 1), ("green", 2), ("yellow", 3), ("blue", 4), ("magenta", 5), ("cyan", 6), ("white", 7),
+   ("grey", 8), ("brown", 94), ("orange", 208), ("pink", 212), ("purple", 128)]
+
+def isDigit (b : UInt8) : Bool := 0x30 ≤ b && b ≤ 0x39
+def hexVal (b : UInt8) : Option Nat :=
+  if 0x30 ≤ b && b ≤ 0x39 then some (b.toNat - 0x30)
+  else if 0x61 ≤ b && b ≤ 0x66 then some (b.toNat - 0x61 + 10)
+  else if 0x41 ≤ b && b ≤ 0x46 then some (b.toNat - 0x41 + 10)
+  else none
+
+/-- The parse of `tickit_pen_set_colour_attr_desc` for descriptions of the supported shape (no leading blank or
+    sign; what follows `#` is hexadecimal digits only): `none` = unsupported, `some none` = rejected,
+    `some (some (index, rgb))` = accepted. -/
+def parseDesc (desc : List UInt8) : Option (Option (Int × Option (Nat × Nat × Nat))) :=
+  let hiP := desc.take 3 == [0x68, 0x69, 0x2d]
+  let d := if hiP then desc.drop 3 else desc
+  let hi : Int := if hiP then 8 else 0
+  let before := d.takeWhile (· ≠ 0x23)
+  let hasHash := before.length < d.length
+  let after := d.drop (before.length + 1)
+  let hexes := after.mapM hexVal
+  let trimmed := (before.reverse.dropWhile (· = 0x20)).reverse
+  match d.head? with
+  | some c => if c = 0x20 || c = 0x2b || c = 0x2d || c = 0x09 then none else
+    match (if hasHash then hexes else some []) with
+    | none => none
+    | some hs =>
+      let rgb : Option (Nat × Nat × Nat) :=
+        match hs with
+        | [a, b, c, e, f] => some (a * 16 + b, c * 16 + e, f)
+        | a :: b :: c :: e :: f :: g :: _ => some (a * 16 + b, c * 16 + e, f * 16 + g)
+        | _ => none
+      if isDigit c then
+        let digits := d.takeWhile isDigit
+        let val : Int := digits.foldl (fun v x => v * 10 + ((x.toNat - 0x30 : Nat) : Int)) 0
+        if hiP && val > 7 then some none else some (some (val + hi, rgb))
+      else
+        match colourNames.find? (fun nc => trimmed.length ≤ nc.1.length ∧ nc.1.toUTF8.toList.take trimmed.length = trimmed) with
+        | some nc => some (some ((if nc.2 < 8 && hiP then nc.2 + hi else nc.2), rgb))
+        | none => some none
+  | none =>
+    -- empty description: len = 0 matches the first name
+    some (some ((if hiP then 8 else 0), none))
+
+/-- `tickit_pen_set_colour_attr_desc(pen, FG, desc)`: returns whether the description was accepted. -/
+def penSetDesc (st : St) (k : Nat) (desc : List UInt8) : Option (Out (St × Bool)) :=
+  match parseDesc desc with
+  | none => none
+  | some none => some (pure (st, false))
+  | some (some (val, rgb)) => some (do
+      let st ← penFreeze st k
+      let st ← penSetColour st k val
+      let st ← match rgb with
+        | some c => penSetRgb st k c
+        | none => pure st
+      let st ← penThaw st k
+      pure (st, true))
 
 /-- `tickit_term_unref` (→ `tickit_term_destroy`). -/
 def termUnref (st : St) : Out St :=
@@ -663,11 +855,6 @@ def heldW (st : St) (i : Id) : Bool :=
   match st.tree.wins[i]? with
   | none => false
   | some w => !w.freed && (getX st i).appRefs > 0
-
-def heldP (st : St) (k : Nat) : Bool :=
-  match st.pens[k]? with
-  | none => false
-  | some p => !p.freed && p.appRefs > 0
 
 def heldT (st : St) : Bool := !st.term.freed && st.term.appRefs > 0
 
